@@ -494,3 +494,121 @@ func runORD25(p *Prog, r *RuleRun) {
 		r.Fail(funcDisplay(sl)+":hand-off", p.Position(sl.Pos()), "StoreLogs never hands a checkpoint to the background verifier through a non-blocking select")
 	}
 }
+
+// ---------------------------------------------------------------- VF-21
+
+func init() {
+	register(&Rule{ID: "VF-21", Title: "every checkpoint of a batch is handed to the background verifier (reports are accumulated, not overwritten)",
+		Props: []string{"C18"}, Floor: 2, Run: runVF21})
+}
+
+func runVF21(p *Prog, r *RuleRun) {
+	sl := p.methodImpl("verifier", "LogStore", "StoreLogs")
+	if sl == nil {
+		r.Unknown("anchor", "?", "(*verifier.LogStore).StoreLogs not found")
+		return
+	}
+	isReportPtr := func(t types.Type) bool {
+		pt, ok := t.(*types.Pointer)
+		return ok && isNamed(pt.Elem(), ModPath+"/verifier", "VerificationReport")
+	}
+	// the per-entry report: a pointer-to-report result of a verifier helper called in the entry loop
+	var reports []ssa.Value
+	for _, b := range sl.Blocks {
+		for _, ins := range b.Instrs {
+			ex, ok := ins.(*ssa.Extract)
+			if !ok || !isReportPtr(ex.Type()) {
+				continue
+			}
+			if c, ok := ex.Tuple.(*ssa.Call); ok && c.Call.StaticCallee() != nil && pkgRelOf(p, c.Call.StaticCallee()) == "verifier" {
+				reports = append(reports, ex)
+			}
+		}
+	}
+	pos := p.Position(sl.Pos())
+	if len(reports) == 0 {
+		r.Unknown(funcDisplay(sl)+":report-source", pos, "no per-entry verification report found in StoreLogs")
+		return
+	}
+	// (1) each report flows into an append (accumulated) or straight into the hand-off within the same iteration
+	accumulated := false
+	for _, b := range sl.Blocks {
+		for _, ins := range b.Instrs {
+			c, ok := ins.(*ssa.Call)
+			if !ok || !isBuiltinCall(c, "append") {
+				continue
+			}
+			sli, ok := c.Call.Args[1].(*ssa.Slice)
+			if !ok {
+				continue
+			}
+			arr, ok := sli.X.(*ssa.Alloc)
+			if !ok {
+				continue
+			}
+			for _, ref := range *arr.Referrers() {
+				ia, ok := ref.(*ssa.IndexAddr)
+				if !ok {
+					continue
+				}
+				for _, r2 := range *ia.Referrers() {
+					st, ok := r2.(*ssa.Store)
+					if !ok {
+						continue
+					}
+					val := st.Val
+					if u, ok := val.(*ssa.UnOp); ok && u.Op == token.MUL {
+						val = u.X
+					}
+					for _, rep := range reports {
+						if val == rep {
+							accumulated = true
+						}
+					}
+				}
+			}
+		}
+	}
+	isHandoff := func(fn *ssa.Function) bool {
+		if fn == nil {
+			return false
+		}
+		for _, b := range fn.Blocks {
+			for _, ins := range b.Instrs {
+				if s, ok := ins.(*ssa.Select); ok {
+					for _, st := range s.States {
+						if st.Dir == types.SendOnly && fieldLoadName(st.Chan) == "verifyCh" {
+							return true
+						}
+					}
+				}
+			}
+		}
+		return false
+	}
+	direct, looped := false, false
+	for _, b := range sl.Blocks {
+		for _, ins := range b.Instrs {
+			c, ok := ins.(*ssa.Call)
+			if !ok || !isHandoff(c.Call.StaticCallee()) {
+				continue
+			}
+			if reachesBlock(b, b) {
+				looped = true
+			}
+			for _, a := range c.Call.Args {
+				if u, ok := a.(*ssa.UnOp); ok && u.Op == token.MUL {
+					for _, rep := range reports {
+						if u.X == rep {
+							direct = true
+						}
+					}
+				}
+			}
+		}
+	}
+	r.Check(accumulated || (direct && looped), funcDisplay(sl)+":reports-accumulated", pos, "each checkpoint's report is appended to the batch's list (or handed off inside the entry loop)",
+		"the per-entry verification report is kept in a single variable that later checkpoints of the same batch overwrite: only the last checkpoint of a batch is handed to the verifier, earlier ones are neither verified nor counted as dropped")
+	r.Check(looped, funcDisplay(sl)+":handoff-per-report", pos, "the hand-off runs once per accumulated report (inside a loop)",
+		"the hand-off to the background verifier is not performed per report: a batch with several checkpoints produces a single hand-off")
+}
